@@ -4,18 +4,18 @@ CONSTANTS
   Methods = {"PUT", "POST"}
   MaxNth = 4
   WithBadB64 = TRUE
-  MxOld = {"m1"}
+  MxOld = {"none", "m1"}
   GwOld = {"none"}
   AnchorFlows = {"flows/a.yaml"}
   Paths <- PathsMC
   Cat <- CatMC
   Txns = {1}
   RestoreWrongDirection = FALSE
-  PublishBeforeInit = TRUE
+  PublishBeforeInit = FALSE
   ContinueAfter405 = FALSE
   ApplyNoBackup = FALSE
   NoReloadAfterRestore = FALSE
-  MetricsToDefaultPath = FALSE
+  MetricsToDefaultPath = TRUE
 SPECIFICATION SpecMC
 INVARIANTS DiskAtomic BehavAtomic NeverHalf OneConfig
 CHECK_DEADLOCK FALSE
